@@ -318,6 +318,12 @@ def generic_replay(SCEN, cfg, label, env):
                     detail="replay raised %s: %s" % (type(e).__name__, str(e)[:200]))
     if label.startswith("exception:"):
         return dict(reproduced=False, detail="no exception on the real library")
+    if label == "*":
+        bad = sorted(k for k, v in chk.res.items() if not v["ok"])
+        if bad:
+            r0 = chk.res[bad[0]]
+            return dict(reproduced=True, detail=dict(clause=bad[0], observed=r0["lhs"], expected=r0["rhs"], other_failing=bad[1:7]))
+        return dict(reproduced=False, detail="every clause holds on the real library")
     r = chk.res.get(label)
     if r is None:
         return dict(reproduced=None, detail="label %s not produced by the concrete run" % label)
